@@ -38,7 +38,7 @@ TRelease(g) == /\ \/ pc[g] = "done"
                /\ holder' = IF holder = g THEN "none" ELSE holder
                /\ results' = IF Op(g).op = "long" THEN Append(results, [g |-> g, i |-> ip[g], seen |-> seen[g]]) ELSE results
                /\ pc' = [pc EXCEPT ![g] = "idle"] /\ ip' = [ip EXCEPT ![g] = @ + 1]
-               /\ UNCHANGED << cfg, seen, nx, xlog, lin >>
+               /\ UNCHANGED << cfg, seen, nx, xlog, lin, cb >>
 TInternal == /\ \E g \in G : Acquire(g) \/ Write(g) \/ Snapshot(g) \/ TRelease(g)
              /\ UNCHANGED << tvars, vvars, ovars >>
 
@@ -50,7 +50,7 @@ TGate == /\ More /\ Ev.e = "gate" /\ pc[Ev.g] = "talk" /\ ~atGate[Ev.g]
 TOpen == /\ More /\ Ev.e = "open" /\ atGate[Ev.g] /\ pc[Ev.g] = "talk"
          /\ atGate' = [atGate EXCEPT ![Ev.g] = FALSE]
          /\ nx' = [nx EXCEPT ![Ev.g] = @ + 1] /\ xlog' = Append(xlog, << Ev.g, ip[Ev.g] >>)
-         /\ l' = l + 1 /\ UNCHANGED << tr, cfg, holder, pc, ip, seen, results, lin, vvars, ovars >>
+         /\ l' = l + 1 /\ UNCHANGED << tr, cfg, holder, pc, ip, seen, results, lin, cb, vvars, ovars >>
 SeenMatches(g, e) == \A f \in {x \in Fields : \E k \in 1..Len(e.cmp) : e.cmp[k] = x} : seen[g][f] = e.seen[f]
 TRet == /\ More /\ Ev.e = "ret" /\ pc[Ev.g] = "idle" /\ ip[Ev.g] = Ev.i + 1
         /\ (Ev.long => SeenMatches(Ev.g, Ev))
